@@ -165,13 +165,21 @@ def rule_nomatch(ctx, prop: str) -> RuleResult:
     res = RuleResult("NOMATCH")
     f = ix.func(AC, "find")
     res.analysed.append(f"{AC}:find")
-    # `if not cursors: raise SchedulingError`
+    # `if not cursors: raise SchedulingError` on the list that is returned
     ok = False
+    retvars = set()
     for n in f.body_nodes():
-        if isinstance(n, ast.If) and isinstance(n.test, ast.UnaryOp) and isinstance(n.test.op, ast.Not) and always_raises(n.body):
-            ok = True
-        if isinstance(n, ast.If) and isinstance(n.test, ast.Compare) and "len(" in ast.unparse(n.test) and always_raises(n.body):
-            ok = True
+        if isinstance(n, ast.Return) and n.value is not None:
+            retvars |= {x.id for x in ast.walk(n.value) if isinstance(x, ast.Name)}
+    for n in f.body_nodes():
+        if isinstance(n, ast.If) and always_raises(n.body):
+            t = n.test
+            if isinstance(t, ast.UnaryOp) and isinstance(t.op, ast.Not) and isinstance(t.operand, ast.Name) and t.operand.id in retvars:
+                ok = True
+            if isinstance(t, ast.Compare) and isinstance(t.left, ast.Call) and dotted(t.left.func) == "len" and t.left.args and isinstance(t.left.args[0], ast.Name) and t.left.args[0].id in retvars:
+                c = t.comparators[0]
+                if isinstance(c, ast.Constant) and ((isinstance(t.ops[0], ast.Eq) and c.value == 0) or (isinstance(t.ops[0], ast.Lt) and c.value == 1)):
+                    ok = True
     res.instances += 1
     res.nontrivial += 1
     res.ob(ok)
